@@ -258,7 +258,9 @@ def run(cx):
                 inner = inner.replace(f"({name} ", f"(({norm(d[0])}) ").replace(f"{name} +", f"({norm(d[0])}) +")
         okp = txt in ("(text + self.newline).encode('utf-8')", "f'{text}{self.newline}'.encode('utf-8')") and norm(wloc.resolve(ast.Name(id="text", ctx=ast.Load()))) in ("f'{value}'", "str(value)")
         r.check(okp, "SerialMonitor.write/payload=str(value)+newline-utf8", (ser, c), f"payload is `{txt}`")
-        guarded = any(isinstance(a, ast.If) and "is_open" in norm(a.test) and "_serial is not None" in norm(a.test) for a in ser.ancestors(c))
+        from ..flow import lexical_conds
+        atoms = {t_ for t_, v_ in lexical_conds(ser, c) if v_}
+        guarded = "self._serial is not None" in atoms and "self._serial.is_open" in atoms    # both conjuncts hold where the payload is sent
         r.check(guarded, "SerialMonitor.write/only-on-open-port", (ser, c), "payload is sent without checking that a port is open")
     rd = ser.func("SerialMonitor.read")
     body = [s for s in rd.body if not (isinstance(s, ast.Expr) and isinstance(s.value, ast.Constant))]
